@@ -649,7 +649,8 @@ fn exec(case: &[String], out: &mut Out) {
 									(None, Some(i)) => i == want,
 									(None, None) => want >= r.cfg.n,
 									(Some((ls, le)), Some(i)) => {
-										(i as i64 - want as i64).rem_euclid((le - ls) as i64) == 0
+										// (i128: an extreme seek saturates at usize::MAX)
+										(i as i128 - want as i128).rem_euclid((le - ls) as i128) == 0
 									}
 									(Some(_), None) => want >= r.cfg.n,
 								};
@@ -1221,6 +1222,16 @@ fn gen_case(rng: &mut Rng, out: &mut Vec<String>, stats: &mut Stats) {
 							gen_life_tween(rng, chunk_secs)
 						),
 						9 | 10 => format!("stop {}", gen_life_tween(rng, chunk_secs)),
+						// extreme seeks: the target saturates at usize::MAX frames; on a looping sound the wrap into the
+						// loop region used to iterate usize::MAX / loop length times (repaired: modular arithmetic)
+						11 if !dc && rng.chance(1, 6) => {
+							stats.hit("extreme_seek");
+							format!("seekto {}", o64(rng.pick(&[1e300, f64::MAX, 9007199254740994.0, 1.8446744073709552e19, 1e15, 5e-324])))
+						}
+						12 if !dc && rng.chance(1, 6) => {
+							stats.hit("extreme_seek");
+							format!("seekby {}", o64(rng.pick(&[1e300, -1e300, f64::MAX, f64::MIN, 9007199254740994.0, -1e19])))
+						}
 						11 if !dc => format!("seekto {}", o64(rng.uniform(-0.5, (n + 2) as f64) / sr as f64)),
 						12 if !dc => format!("seekby {}", o64(rng.uniform(-3.0, 3.0) / sr as f64)),
 						13 if !dc => format!("loop {}", if rng.chance(1, 4) { "none".to_string() } else { gen_valid_loop(rng, n, sr) }),
